@@ -116,7 +116,10 @@ def main():
         "checks": checks,
         "not_applicable": na,
         "notes": "All checks are static (ast-based) and read /repo/src on every run; exit 2 = ANALYSIS-ERROR (anchor vanished, "
-                 "floor miss, canary miss). Known findings: known_findings.json. See DESIGN.md.",
+                 "floor miss, canary miss, unrecognised idiom = INCONCLUSIVE). Sources are shape-normalised at load time and call edges that are new "
+                 "relative to hiolint/baseline_calls.json (frozen call graph, a hint about where to expand only) are expanded in place; "
+                 "restructurings the recognisers do not follow yet are listed with their result in refactors/ and DESIGN.md 11.6b. "
+                 "Known findings: known_findings.json. See DESIGN.md.",
     }
     with open(os.path.join(HERE, "MANIFEST.json"), "w") as f:
         json.dump(man, f, indent=1)
